@@ -84,6 +84,11 @@ theorem C03_wask_answered (regular : Bool) (conv : U32) (cmd frg : BitVec 8) (wn
   exact ⟨h1, by rw [h1]; exact tell_or _, fun st' fuel data h => inputLoop_tell_mono regular fuel data st' h,
     fun k full now h => flush_wins k full now h⟩
 
+/-- non-vacuity: a WASK datagram through `Input`, then an ack-only flush: exactly one WINS header -/
+example : (input (Kcp.new 7) [7,0,0,0, 83,0, 32,0, 0,0,0,0, 0,0,0,0, 0,0,0,0, 0,0,0,0] true false 0).k.probe = 2 ∧
+    (flush (input (Kcp.new 7) [7,0,0,0, 83,0, 32,0, 0,0,0,0, 0,0,0,0, 0,0,0,0, 0,0,0,0] true false 0).k false 5).outs =
+      [encodeHdr 7 84 0 32 0 0 0 0] := by decide
+
 /-- the same at the level of `Input`: if the parse loop ends with ASK_TELL set (e.g. the datagram
 contained a WASK) and `Input` returns 0, then either `Input` flushed and the WINS is in ITS output
 (and `probe` is clear), or the bit is still set in the resulting state for the next flush. -/
@@ -318,6 +323,16 @@ theorem C03_no_ack_without_store (regular : Bool) (conv : U32) (cmd frg : BitVec
     · rw [hk]; exact hp.2.2.2.2.1
     · rw [hk]; exact hp.2.2.2.2.2
     · rw [hk]; exact hp.1
+
+/-- non-vacuity: an out-of-order PUSH (sn 1) is acknowledged AND stored; with `rcv_wnd = 1` the same
+PUSH is beyond the window: not acknowledged, not stored -/
+example :
+    (input (Kcp.new 7) [7,0,0,0, 81,0, 32,0, 9,0,0,0, 1,0,0,0, 0,0,0,0, 1,0,0,0, 0xAA] true false 0).k.acklist = [⟨1, 9⟩] ∧
+    (input (Kcp.new 7) [7,0,0,0, 81,0, 32,0, 9,0,0,0, 1,0,0,0, 0,0,0,0, 1,0,0,0, 0xAA] true false 0).k.rcv_buf.map
+      (fun s => s.sn) = [1] ∧
+    (input { Kcp.new 7 with rcv_wnd := 1 } [7,0,0,0, 81,0, 32,0, 9,0,0,0, 1,0,0,0, 0,0,0,0, 1,0,0,0, 0xAA] true false 0
+      ).k.acklist = [] := by
+  decide
 
 /-! ### `probe_armed` at the level of `flush` and of reachable states -/
 
